@@ -27,7 +27,7 @@ SPECIALS = {
 }
 
 
-def make_kwargs_factory(kind, base, status_mode):
+def make_kwargs_factory(kind, base, status_mode, recv_mode="ok"):
     pk = clientkit.std(kind)
     a = pk["A"]
 
@@ -36,7 +36,7 @@ def make_kwargs_factory(kind, base, status_mode):
                     script=[it_connect, it_feed(a[:7]), it_feed(a[7:]), it_feed(pk["A2"]),
                             it_send(lambda: clientkit.heading_message(66))],
                     specials=SPECIALS, deviations=devs, heal=steady_state(pk["PROBE"]),
-                    connect_plan=BASES[base], status_cb=status_mode)
+                    connect_plan=BASES[base], status_cb=status_mode, recv_cb=recv_mode)
     return make
 
 
@@ -100,8 +100,9 @@ def judge(sess, o):
 
 
 def _explore(args):
-    kind, base, status_mode, k, names = args
-    make = make_kwargs_factory(kind, base, status_mode)
+    kind, base, status_mode, k, names = args[:5]
+    recv_mode = args[5] if len(args) > 5 else "ok"
+    make = make_kwargs_factory(kind, base, status_mode, recv_mode)
     stats = {"runs": 0, "judged": 0, "outcomes": set(), "boundaries_base": 0, "nontrivial": 0}
     vios = []
     samples = []
@@ -121,9 +122,9 @@ def _explore(args):
         for kind_v, facts, detail in judge(sess, o):
             facts = dict(facts, client=kind)
             vios.append({"kind": kind_v, "facts": facts,
-                         "signature": f"{kind_v}:{kind}:{base}:{status_mode}:{[d[1] for d in devs]}",
-                         "detail": f"[{kind} base={base} status_cb={status_mode} devs={devs}] {detail}",
-                         "case": {"client": kind, "base": base, "status_cb": status_mode, "deviations": [list(d) for d in devs]}})
+                         "signature": f"{kind_v}:{kind}:{base}:{status_mode}:{recv_mode}:{[d[1] for d in devs]}",
+                         "detail": f"[{kind} base={base} status_cb={status_mode} recv_cb={recv_mode} devs={devs}] {detail}",
+                         "case": {"client": kind, "base": base, "status_cb": status_mode, "recv_cb": recv_mode, "deviations": [list(d) for d in devs]}})
         if len(samples) < 2 and len(devs) == k:
             samples.append({"client": kind, "base": base, "status_cb": status_mode, "deviations": [list(d) for d in devs],
                             "status": o.status, "attempts": [(round(a.t, 3), a.outcome) for a in sess.gw.attempts]})
@@ -147,6 +148,10 @@ def plan(ctx):
             else:
                 tasks.append((kind, "r1", mode, 2, ["close", "reset", "connect2", "send"] if mode != "ok" else all_names))
                 tasks.append((kind, "r0", mode, 1, ["close"]))
+    for kind in vloop.KINDS:
+        # close() while a (slow / failing) receive callback is in progress
+        tasks.append((kind, "r0", "ok", 2 if ctx.thorough else 1, ["close", "reset", "eof"] if ctx.thorough else ["close"], "slow"))
+        tasks.append((kind, "r0", "slow", 1, ["close"], "raise"))
     if ctx.thorough:
         for kind in vloop.KINDS:
             tasks.append((kind, "r1", "ok", 3, ["close", "reset", "connect2"]))
@@ -166,7 +171,7 @@ def run(ctx):
         judged += st["judged"]
         nontriv += st["nontrivial"]
         outcomes += st["outcomes"]
-        per[f"{t[0]}/{t[1]}/{t[2]}/k{t[3]}"] = {"executions": st["runs"], "judged": st["judged"], "redundant": st["redundant"],
+        per[f"{t[0]}/{t[1]}/{t[2]}/k{t[3]}" + (f"/recv={t[5]}" if len(t) > 5 else "")] = {"executions": st["runs"], "judged": st["judged"], "redundant": st["redundant"],
                                                "base_boundaries": st["boundaries_base"], "distinct_outcomes": st["outcomes"]}
     cov = {
         "states": judged, "transitions": runs, "traces_validated_against_impl": runs,
@@ -187,7 +192,7 @@ def run(ctx):
 
 def replay(ctx, rep):
     c = rep["case"]
-    make = make_kwargs_factory(c["client"], c["base"], c["status_cb"])
+    make = make_kwargs_factory(c["client"], c["base"], c["status_cb"], c.get("recv_cb", "ok"))
     devs = [tuple(d) for d in c["deviations"]]
     sess, o = vloop.run_session(**make(devs))
     sess2, o2 = vloop.run_session(**make(devs))
